@@ -423,8 +423,53 @@ def data_abstraction(world: World, user: str = 'user1') -> dict:
     return {'boxes': frozenset(n for n in mset._set if n in ('Box', 'Box2')),
             'fl': bool(m1 is not None and
                        any(bytes(f) == b'\\Flagged' for f in m1.permanent_flags)),
-            'grew': inbox._max_uid > 104}
+            'grew': inbox._max_uid > (104 if user == 'user1' else 100)}
 
+
+
+# --------------------------------------------------------------------------
+# provisioning the store (through the dict backend's own API)
+
+def _message(box: str, i: int) -> bytes:
+    return (b'From: verif@example.com\r\nSubject: %s %d\r\n\r\n%s\r\n'
+            % (box.encode(), i, b'x' * (7 * i + {'INBOX': 11, 'Sent': 23, 'Trash': 37}[box])))
+
+
+def provision(world: World, rich: bool) -> None:
+    """Every user gets a mailbox and a sieve script `marker_<user>` (so that
+    LIST / LISTSCRIPTS show whose session it is).  rich: user1 additionally
+    gets what pymap's demo data would give (INBOX with UIDs 101..104, Sent
+    with two messages, a read-only Trash with one), without the 7 ms it takes
+    pymap to parse the demo files at every first login."""
+    from datetime import datetime, timezone
+    from pymap.backend.dict.mailbox import MailboxSet
+    from pymap.backend.dict.filter import FilterSet
+    from pymap.parsing.message import AppendMessage
+    from pymap.parsing.specials.flag import Flag
+    when = datetime(2020, 1, 1, tzinfo=timezone.utc)
+
+    async def build():
+        for user in USERS:
+            mset = MailboxSet()
+            fset = FilterSet()
+            await mset.add_mailbox('marker_' + user)
+            await fset.put('marker_' + user, b'keep;\r\n')
+            if rich and user == 'user1':
+                flags = [[b'\\Seen'], [], [b'\\Answered', b'\\Seen'], [b'\\Draft']]
+                for i in range(4):
+                    await mset._inbox.append(AppendMessage(
+                        _message('INBOX', i + 1), when,
+                        frozenset(Flag(f) for f in flags[i])))
+                for name, n in (('Sent', 2), ('Trash', 1)):
+                    await mset.add_mailbox(name)
+                    mbx = await mset.get_mailbox(name)
+                    for i in range(n):
+                        await mbx.append(AppendMessage(_message(name, i + 1), when,
+                                                       frozenset()))
+                    if name == 'Trash':
+                        mbx._readonly = True
+            world.config.set_cache[user] = (mset, fset)
+    world.loop.run_coro(build())
 
 # --------------------------------------------------------------------------
 # driving the real IMAP server
@@ -440,8 +485,9 @@ def fingerprints() -> dict:
     """Learned from the server itself, once per process."""
     if _FINGERPRINTS:
         return _FINGERPRINTS
-    w = World('dict', demo=True, users=USERS)
+    w = World('dict', demo=False, users=USERS)
     try:
+        provision(w, True)
         w.connect('f')
         w.login('f')
         for model_name, real in (('INBOX', b'INBOX'), ('RO', b'Trash'),
@@ -461,9 +507,8 @@ def fingerprints() -> dict:
 class ImapDriver:
     """One connection to one fresh server, spoken to in the spec's alphabet."""
 
-    def __init__(self, env: str, rng, *, demo: bool = True, local: bool | None = None,
-                 markers: bool = False, config_kw: dict | None = None,
-                 variants: bool = True):
+    def __init__(self, env: str, rng, *, rich: bool = True, local: bool | None = None,
+                 config_kw: dict | None = None, variants: bool = True):
         kw = dict(ENVS[env])
         self.env = env
         loc = kw.pop('local', True if local is None else local)
@@ -472,10 +517,9 @@ class ImapDriver:
         self.local = loc
         self.rng = rng
         self.variants = variants
-        self.world = World('dict', demo=demo, users=USERS, tls=kw['tls'],
+        self.world = World('dict', demo=False, users=USERS, tls=kw['tls'],
                            config_kw=config_kw)
-        if markers:
-            self._make_markers()
+        provision(self.world, rich)
         self.c = self.world.connect('a', local=loc)
         self.transcript: list = []       # (direction, bytes)
         self.notes: set = set()
@@ -483,18 +527,6 @@ class ImapDriver:
         greeting = self.c.take()
         self.transcript.append(('S', greeting))
         self.greeting = greeting
-
-    def _make_markers(self) -> None:
-        """A mailbox marker_<user> in every user's store, so that LIST shows
-        whose session this is."""
-        from pymap.backend.dict.mailbox import MailboxSet
-        from pymap.backend.dict.filter import FilterSet
-        for user in USERS:
-            mset = MailboxSet()
-            self.world.loop.run_coro(mset.add_mailbox('marker_' + user))
-            fset = FilterSet()
-            self.world.loop.run_coro(fset.put('marker_' + user, b'keep;\r\n'))
-            self.world.config.set_cache[user] = (mset, fset)
 
     def close(self) -> None:
         self.world.close()
@@ -597,7 +629,7 @@ class ImapDriver:
         done = [r for r in resps if r.kind == 'tagged' and r.tag == tag]
         return (done[0].cond if done else None), resps
 
-    def observe(self, protocol: bool = True, list_pattern: bytes = b'Sent') -> dict:
+    def observe(self, protocol: bool = True, list_pattern: bytes = b'marker_%') -> dict:
         """The spec's variables as far as the connection reveals them.
 
         protocol=True: W-method probes through the protocol (CAPABILITY; LIST:
@@ -613,24 +645,25 @@ class ImapDriver:
         if not protocol:
             obs.update(glass)
             return obs
-        # advertised mechanisms
-        cond, resps = self._probe(b'CAPABILITY')
-        caps = None
-        for r in resps:
-            if r.name == b'CAPABILITY':
-                caps = [bytes(x).upper() for x in r.data]
-        if caps is None:
-            obs['probe_failed'] = 'CAPABILITY'
-            return obs
-        obs['stls'] = b'STARTTLS' in caps
         # authenticated? as whom?
         cond, resps = self._probe(b'LIST "" ' + list_pattern)
         if cond == b'OK':
             names = [_name(r.data[2]) for r in resps if r.name == b'LIST']
             obs['auth'] = whose(names)
             obs['mechs'] = None            # not advertised any more
+            obs['stls'] = glass['stls']
         else:
             obs['auth'] = NONE
+            # advertised mechanisms
+            cond, resps = self._probe(b'CAPABILITY')
+            caps = None
+            for r in resps:
+                if r.name == b'CAPABILITY':
+                    caps = [bytes(x).upper() for x in r.data]
+            if caps is None:
+                obs['probe_failed'] = 'CAPABILITY'
+                return obs
+            obs['stls'] = b'STARTTLS' in caps
             mechs = frozenset(x[5:].decode() for x in caps if x.startswith(b'AUTH='))
             if (b'LOGINDISABLED' in caps) == ('PLAIN' in mechs):
                 obs['probe_failed'] = 'LOGINDISABLED inconsistent with AUTH=PLAIN'
@@ -702,8 +735,6 @@ def whose(names: list[str]) -> str:
     """Identity shown by a LIST of marker mailboxes / the demo mailboxes."""
     owners = {REAL_USER.get(n[len('marker_'):], '?' + n) for n in names
               if n.startswith('marker_')}
-    if 'Sent' in names or 'Trash' in names:
-        owners.add('u1')
     if len(owners) == 1:
         return owners.pop()
     return '?' + ','.join(sorted(names))
@@ -954,7 +985,7 @@ class SieveDriver:
         self.local = loc
         self.rng = rng
         self.world = World('dict', demo=False, users=USERS, tls=kw['tls'])
-        ImapDriver._make_markers(self)
+        provision(self.world, False)
         self.c = self.world.connect('a', local=loc, service='sieve')
         self.transcript: list = []
         self.notes: set = set()
@@ -1084,7 +1115,8 @@ def signature(model: Model, pre: dict, inp: dict, obs: dict) -> str:
 class Tracked:
     """A driver plus the model node the connection is in."""
 
-    def __init__(self, model: Model, driver, meta: dict, list_pattern: bytes = b'Sent'):
+    def __init__(self, model: Model, driver, meta: dict, list_pattern: bytes = b'marker_%',
+                 protocol: bool = True):
         self.m = model
         self.d = driver
         self.meta = meta
@@ -1092,7 +1124,7 @@ class Tracked:
         self.labels: list[str] = []
         self.trace: list = []
         self.changed = False          # some step changed the connection state
-        obs = driver.observe(True, list_pattern)
+        obs = driver.observe(protocol, list_pattern)
         obs['last'] = 'INIT'
         self.obs0 = obs
         self.cur = init_node(model, obs)
@@ -1130,7 +1162,10 @@ class Tracked:
         sig = signature(m, pre, inp, obs)
         if verdict == 'violation' and detail.get('clause', '').startswith('refused'):
             sig = 'RefusedHadEffect:' + sig
-        what = (f"after {self.labels[:-1]} in state [{core_str(pre)}] input {label} "
+        hist = self.labels[:-1]
+        shown = (f'{len(hist) - 6} earlier inputs, ' if len(hist) > 6 else '') + \
+            ', '.join(hist[-6:])
+        what = (f"after [{shown}] in state [{core_str(pre)}] input {label} "
                 f"-> observed [{obs_str(obs)}]; {detail}")
         self.problem = (verdict, what, sig, detail)
         return verdict
